@@ -102,3 +102,22 @@ func BigShapes(n int) []string {
 		rep("\xff", n),
 	}
 }
+
+// NestedShapes are small inputs with deep RIGHT nesting (the cheap way to make tree depth large while the text stays
+// short): exponential behaviour in any recursive consumer shows up at a few dozen levels.
+func NestedShapes() []string {
+	rep := strings.Repeat
+	var out []string
+	for _, d := range []int{24, 40, 64} {
+		out = append(out,
+			rep("a:1 AND (", d)+"b"+rep(")", d),
+			rep("a:1 OR (", d)+"b"+rep(")", d),
+			rep("a:(", d)+"b"+rep(")", d),
+			"x~("+rep("a:1 AND (", d)+"2"+rep(")", d)+")",
+			rep("NOT (", d)+"a"+rep(")", d),
+			rep("(a AND ", d)+"b"+rep(")", d),
+			rep("a:>(b AND ", d)+"c"+rep(")", d),
+		)
+	}
+	return out
+}
